@@ -213,14 +213,17 @@ def make(seed, n_pairs):
         ty = "GBox<'static>" if group else ("OuterBox<'static>" if outer else "TBox<'static>")
         ty2 = "GArcBox<'static>" if group else ("OuterArcBox<'static>" if outer else "TArcBox<'static>")
         rows.append((k, kind, expect, a_src + ga, b_src + gb, ty, ty2))
-    body.append("fn pairs() -> Vec<(Pair, VerifyLayout, VerifyLayout, [VerifyLayout; 4], VerifyLayout)> { vec![")
+    body.append("fn pairs() -> Vec<(Pair, VerifyLayout, VerifyLayout, [VerifyLayout; 4], VerifyLayout, [VerifyLayout; 2])> { vec![")
     for (k, kind, expect, a, b, ty, ty2) in rows:
         esc = lambda s: s.replace("\\", "\\\\").replace('"', '\\"').replace("\n", "\\n")
         body.append(f"    (Pair {{ id: \"p{k}\".into(), kind: \"{kind}\".into(), expect: \"{expect}\".into(), a: \"{esc(a)}\".into(), b: \"{esc(b)}\".into() }},"
                     f" compare_layouts(Some(<a{k}::{ty} as StableAbi>::LAYOUT), Some(<b{k}::{ty} as StableAbi>::LAYOUT)),"
                     f" compare_layouts(Some(<a{k}::{ty2} as StableAbi>::LAYOUT), Some(<b{k}::{ty2} as StableAbi>::LAYOUT)),"
                     f" [compare_layouts(Some(<a{k}::{ty} as StableAbi>::LAYOUT), None), compare_layouts(None, Some(<b{k}::{ty} as StableAbi>::LAYOUT)), compare_layouts(None, None), VerifyLayout::check::<a{k}::{ty}>(None)],"
-                    f" VerifyLayout::check::<a{k}::{ty}>(Some(<a{k}::{ty} as StableAbi>::LAYOUT))),")
+                    f" VerifyLayout::check::<a{k}::{ty}>(Some(<a{k}::{ty} as StableAbi>::LAYOUT)),"
+                    # the loader's call: its own (expected) type against the description found in the
+                    # plugin - issued right after a successful check of that very description
+                    f" [VerifyLayout::check::<b{k}::{ty}>(Some(<a{k}::{ty} as StableAbi>::LAYOUT)), VerifyLayout::check::<a{k}::{ty2}>(Some(<b{k}::{ty2} as StableAbi>::LAYOUT))]),")
     body.append("] }")
     body.append(MAIN)
     write_if_changed(os.path.join(d, "src", "main.rs"), "\n".join(body))
@@ -258,7 +261,7 @@ fn main() {
     if !ctx.is_replay() {
         and_table(&ctx);
     }
-    for (p, v_box, v_arc, v_none, v_self) in pairs() {
+    for (p, v_box, v_arc, v_none, v_self, v_chk) in pairs() {
         if let Some(r) = &replay { if r.id != p.id { continue; } } else if ctx.is_replay() { continue; }
         ctx.eval_nofreeze("pairs", &p, |p| {
             for (which, v) in ["(Some, None)", "(None, Some)", "(None, None)", "check(None)"].iter().zip(v_none.iter()) {
@@ -269,7 +272,7 @@ fn main() {
             if !matches!(v_self, VerifyLayout::Valid) {
                 return Err(Fail::new("C20:identical-rejected", format!("a type compared with its own layout gives {}", verdict(&v_self))));
             }
-            for (which, v) in [("Box", &v_box), ("ArcBox", &v_arc)] {
+            for (which, v) in [("Box", &v_box), ("ArcBox", &v_arc), ("Box (VerifyLayout::check of the edited type against the original's description, after that description had been checked once)", &v_chk[0]), ("ArcBox (VerifyLayout::check)", &v_chk[1])] {
                 match (p.expect.as_str(), v) {
                     ("same", VerifyLayout::Valid) => {}
                     ("same", other) => return Err(Fail::new("C20:identical-rejected", format!("edit `{}` leaves the C-visible interface identical but the {which} object types compare as {}", p.kind, verdict(other)))),
@@ -283,7 +286,7 @@ fn main() {
             Ok(Info::new(p.expect == "differs").class(format!("edit:{}", p.kind)).class(format!("expect:{}", p.expect)))
         });
     }
-    let code = ctx.finish("pairs (definition, single-edit variant) over traits with 1-4 methods on StableAbi leaf types and groups built from them: edits = add/remove/rename/reorder a method, change one argument or return type (C-visible, or C-neutral such as &str <-> &[u8] or a parameter rename), change receiver kind, toggle int_result, add/remove an argument, add/remove an optional trait, swap mandatory/optional, permute the declared order of optional traits (neutral: they are sorted), and the same edits applied to the trait of an object that a method of the compared type RETURNS (owned or by mutable reference); both sides are expanded in separate modules of a crate built with the layout_checks feature and the Box and ArcBox opaque object/group types are compared with compare_layouts. Oracle: identical C-visible interface => Valid; different => not Valid; missing description => Unknown; type vs itself => Valid; plus the 9 ordered pairs of the `and` table. Non-trivial = the edited pairs", &["the expected verdict comes from the generator's model of the C-visible signature (method name, receiver, wrapped argument/return types)"], false);
+    let code = ctx.finish("pairs (definition, single-edit variant) over traits with 1-4 methods on StableAbi leaf types and groups built from them: edits = add/remove/rename/reorder a method, change one argument or return type (C-visible, or C-neutral such as &str <-> &[u8] or a parameter rename), change receiver kind, toggle int_result, add/remove an argument, add/remove an optional trait, swap mandatory/optional, permute the declared order of optional traits (neutral: they are sorted), and the same edits applied to the trait of an object that a method of the compared type RETURNS (owned or by mutable reference); both sides are expanded in separate modules of a crate built with the layout_checks feature and the Box and ArcBox opaque object/group types are compared with compare_layouts and with VerifyLayout::check (expected type vs found description, also right after a successful check of the same description). Oracle: identical C-visible interface => Valid; different => not Valid; missing description => Unknown; type vs itself => Valid; plus the 9 ordered pairs of the `and` table. Non-trivial = the edited pairs", &["the expected verdict comes from the generator's model of the C-visible signature (method name, receiver, wrapped argument/return types)"], false);
     std::process::exit(code);
 }
 """
